@@ -448,8 +448,15 @@ fn body(ctx: &Ctx) -> (Summary, Meta) {
       }
         out
     });
+    let mut sum = sum;
+    sum.merge(run_jobs(ctx, "edge-knot-batches", &[0usize, 1, 2, 3], |f| format!("edge-knots:family{f}"), |f| {
+        let mut out = JobOut::default();
+        nimc::subj::edge_knot_batches(&mut out, *f);
+        out.sample = Some(Json::str(&format!("knot family {f}: subsets of 4..6 of 10 round knots")));
+        out
+    }));
     let meta = Meta {
-        rule: "every instantiation of {data Ix1..Ix6, IxDyn} x {query Ix0, Ix1, Ix2 (m,1), Ix3 (1,m,1), IxDyn of runtime rank 1} x {owned, view, shared storage of data, axes and queries; in 2-D xs and ys (and x, y) get different storage kinds} x {f64, f32, i32, i64} x {Interp1D, Interp2D} is executed with Linear / Bilinear. The hook inside cast_unchecked asserts type_name / size / align equality on every executed cast and counts them: 2 (Interp1D) / 3 (Interp2D) casts iff the static query type is Ix1, 0 otherwise, for interp_array and interp_array_into alike; outputs of the fast path, of element-wise interp and of the general path (dynamic rank-1 query) are bit-identical. Each instantiation is run seven times: all queries in range; one (not the last) element out of range; data with a zero-length last trailing axis plus an out-of-range element; +0.0 and -0.0 queries next to each other on data whose first-knot samples are -0.0 (float types); one element one ulp (one unit) above the last knot; a buffer with one row too many plus an out-of-range element (fast and general *_into must fail in the same way); the query stored back to front (negative stride) with two different out-of-range elements - the verdicts (Ok / the OutOfBounds message) of all paths must agree. Non-trivial = instantiation whose static query type is Ix1 (the cast is executed).".into(),
+        rule: "every instantiation of {data Ix1..Ix6, IxDyn} x {query Ix0, Ix1, Ix2 (m,1), Ix3 (1,m,1), IxDyn of runtime rank 1} x {owned, view, shared storage of data, axes and queries; in 2-D xs and ys (and x, y) get different storage kinds} x {f64, f32, i32, i64} x {Interp1D, Interp2D} is executed with Linear / Bilinear. The hook inside cast_unchecked asserts type_name / size / align equality on every executed cast and counts them: 2 (Interp1D) / 3 (Interp2D) casts iff the static query type is Ix1, 0 otherwise, for interp_array and interp_array_into alike; outputs of the fast path, of element-wise interp and of the general path (dynamic rank-1 query) are bit-identical. Each instantiation is run seven times: all queries in range; one (not the last) element out of range; data with a zero-length last trailing axis plus an out-of-range element; +0.0 and -0.0 queries next to each other on data whose first-knot samples are -0.0 (float types); one element one ulp (one unit) above the last knot; a buffer with one row too many plus an out-of-range element (fast and general *_into must fail in the same way); the query stored back to front (negative stride) with two different out-of-range elements - the verdicts (Ok / the OutOfBounds message) of all paths must agree. Phase edge-knot-batches (shared with C09): on 2688 axes with knots at round positions the fast path (static rank-1 batch), the general path (dynamic rank-1 batch) and single queries before and after the batches agree bit for bit. Non-trivial = instantiation whose static query type is Ix1 (the cast is executed).".into(),
         bounds: format!("{} instantiations (the whole finite table)", TABLE.len()),
         assumptions: vec!["type_name equality is a monitor for type identity, not a UB detector".into()],
         extra: vec![],
